@@ -14,10 +14,37 @@ ASSUMPTIONS = []
 nontrivial = c01.nontrivial
 
 
+def declared_outputs_over_child_resources():
+    """A routine with children whose OUTPUT port is declared over a resource of one of its own children (size: N + alloc.width),
+    wired from inside as qref wants it, feeding a sibling one level up: the child's resource is a value like any other by the
+    time the size is worked out -- the name alloc.width does not survive, anywhere."""
+    import exprs as E
+
+    def node(name, params=(), ports=(), conns=(), kids=(), links=(), res=()):
+        return {"name": name, "type": None, "input_params": list(params), "local_variables": [], "linked_params": [list(l) for l in links],
+                "ports": list(ports), "resources": list(res), "connections": [list(c) for c in conns], "repetition": None, "children": list(kids)}
+
+    def port(n, d, size):
+        return {"name": n, "direction": d, "size": size}
+    out = []
+    for rtype in ("additive", "other", "multiplicative"):
+        for size in (E.op("add", E.sym("N"), E.sym("alloc.width")), E.op("mul", E.num(2), E.sym("alloc.width")), E.sym("alloc.width"),
+                     E.op("max", E.sym("alloc.width"), E.op("add", E.sym("N"), E.num(1)))):
+            alloc = node("alloc", params=["N"], ports=[port("out_0", "output", E.sym("N"))],
+                         res=[{"name": "width", "type": rtype, "value": E.op("add", E.op("mul", E.num(2), E.sym("N")), E.num(1))}])
+            user = node("user", ports=[port("in_0", "input", E.sym("W"))], res=[{"name": "T", "type": "additive", "value": E.op("mul", E.num(3), E.sym("W"))}])
+            mid = node("mid", params=["N"], links=[["N", [["alloc", "N"]]]], ports=[port("out_0", "output", size)], conns=[["alloc.out_0", "out_0"]], kids=[alloc])
+            out.append({"routine": node("root", params=["N"], links=[["N", [["mid", "N"]]]], conns=[["mid.out_0", "user.in_0"]], kids=[mid, user])})
+            # ... and with the declaring routine as the root itself
+            out.append({"routine": node("root", params=["N"], links=[["N", [["alloc", "N"]]]], ports=[port("out_0", "output", size)],
+                                        conns=[["alloc.out_0", "out_0"]], kids=[alloc])})
+    return out
+
+
 def streams(tier, seed):
     rng = lib.Rng(f"C04-{seed}")
     n = 160 if tier == "quick" else 3000
-    cases = lib.load_corpus(PROP, "hier-compile") + c01.gen_cases(rng, n, 3 if tier == "quick" else 4)
+    cases = lib.load_corpus(PROP, "hier-compile") + declared_outputs_over_child_resources() + c01.gen_cases(rng, n, 3 if tier == "quick" else 4)
     import hier as H
     for c in cases:
         if "derived_leaf" not in c and rng.random() < 0.15 and any(nd.get("repetition") for nd, _ in H._nodes(c["routine"])):
